@@ -229,13 +229,13 @@ def gen_kernel(rng, isa, forms, n=None):
 
 # ------------------------------------------------------------------ pipeline
 class Pipeline:
-    def __init__(self, ctx, isa, isa_yaml=None, arch_yaml=None, arch=None):
+    def __init__(self, ctx, isa, isa_yaml=None, arch_yaml=None, arch=None, fresh=False):
         import models
         from osaca.semantics import MachineModel, ArchSemantics
         from osaca.parser import ParserX86ATT, ParserAArch64
         self.isa = isa
         if arch:
-            self.mm, self.sem = models.load(arch)
+            self.mm, self.sem = models.load_fresh(arch) if fresh else models.load(arch)
         else:
             d = os.path.join(ctx.scratch, "syn%d" % ctx.rng.randrange(10 ** 9))
             os.makedirs(d)
